@@ -293,16 +293,18 @@ NoBaseResult(sc, F, tok, st) ==
       mask  |-> [k \in DOMAIN g |-> IF tag[k] = "reph" THEN <<"rphf">> ELSE <<"half">>],
       base  |-> 0]
 
-ResultFrom(sc, model, F, tok, st) ==
+\* the result, given the tags (shared with the lemmas of MC_IndicReorder)
+ResultFromTags(sc, model, F, tok, st, tag) ==
   LET g == Syms(tok)
   IN IF st.base = 0 THEN NoBaseResult(sc, F, tok, st)
-     ELSE LET tag == AllTags(sc, F, g, st)
-              ord == OldSpec(sc, model, g, tag, Order(tag))
+     ELSE LET ord == OldSpec(sc, model, g, tag, Order(tag))
           IN [order |-> [r \in DOMAIN ord |-> tok[ord[r]].ix],
               sym   |-> [r \in DOMAIN ord |-> g[ord[r]]],
               pos   |-> [r \in DOMAIN ord |-> tag[ord[r]]],
               mask  |-> Masks(sc, model, F, g, tag, ord),
               base  |-> CHOOSE r \in DOMAIN ord : ord[r] = st.base]
+ResultFrom(sc, model, F, tok, st) ==
+  ResultFromTags(sc, model, F, tok, st, IF st.base = 0 THEN <<>> ELSE TLCEval(AllTags(sc, F, Syms(tok), st)))
 
 Expected(sc, model, F, kind, syms) ==
   LET tok == Tokens(sc, kind, syms)
